@@ -15,6 +15,9 @@ from vlib.core import q, unq
 PROPERTY = "C03"
 LEAN_MODS = ["AtomicaProofs.Properties.C03Grid"]
 THEOREMS = [
+    "Atomica.C03.update_end_snapped",
+    "Atomica.C03.update_start_dt",
+    "Atomica.C03.update_end_first",
     "Atomica.C03.grid_exact",
     "Atomica.C03.grid_length",
     "Atomica.C03.grid_last_ge",
@@ -82,8 +85,79 @@ def run_grid(ctx):
     ctx.exhaustive = False
 
 
+def run_settings_ops(ctx):
+    """Histories of edits on one ProjectSettings object (sim_end=, sim_dt=, sim_start=, update_time_vector) vs the state-machine model."""
+    import atomica as at
+
+    r = ctx.rng
+    hist = []
+    for _ in range(ctx.n(150, 4000)):
+        s0 = r.choice([2000, 2000.5, 1995, 2010.25])
+        d0 = r.choice([0.25, 0.5, 1.0, 0.2, 0.1, 1 / 12])
+        e0 = s0 + r.choice([1, 5, 10.3, 35])
+        ops = []
+        cur_start = s0
+        for _k in range(r.randint(1, 4)):
+            kind = r.choice("EDUUU")
+            if kind == "E":
+                ops.append(("E", s0 + r.choice([1.1, 2, 3.35, 7.77, 10, 20.5])))  # s0 >= every later start
+            elif kind == "D":
+                ops.append(("D", r.choice(DTS)))
+            else:
+                ns = r.choice([None, None, None, cur_start, cur_start - 5])  # never move the start past the end year (user error, outside the domain)
+                if ns is not None:
+                    cur_start = ns
+                ne = r.choice([None, cur_start + 5 + r.choice([1.1, 2, 3.35, 7.77, 10, 20.5])])
+                nd = r.choice([None, r.choice(DTS)])
+                ops.append(("U", ns, ne, nd))
+        hist.append((s0, e0, d0, ops))
+
+    def tok(x):
+        return "-" if x is None else q(x)
+
+    reqs = []
+    for s0, e0, d0, ops in hist:
+        t = [f"gridops {q(s0)} {q(e0)} {q(d0)}"]
+        for op in ops:
+            t.append(op[0] + " " + " ".join(tok(x) for x in op[1:]))
+        reqs.append(" ".join(t))
+    reps = core.drive(reqs)
+    for (s0, e0, d0, ops), rep in zip(hist, reps):
+        key = {"api": "ProjectSettings.history", "start": s0, "end": e0, "dt": d0, "ops": [list(o) for o in ops]}
+        st = at.ProjectSettings(sim_start=s0, sim_end=e0, sim_dt=d0)
+        last_end_req = e0
+        for op in ops:
+            if op[0] == "E":
+                st.sim_end = op[1]; last_end_req = op[1]
+            elif op[0] == "D":
+                st.sim_dt = op[1]
+            else:
+                st.update_time_vector(start=op[1], end=op[2], dt=op[3])
+                if op[2] is not None:
+                    last_end_req = op[2]
+        ms, me, md, mn = rep.split()
+        ctx.count("settings.history")
+        ctx.case(key, nontrivial=len(ops) > 1 or ops[0][0] == "U", sample=key if ctx.evaluations % 97 == 0 else None)
+        tv = st.tvec
+        bad = None
+        if not core.close(unq(me), st.sim_end, rtol=0, atol=1e-9) or len(tv) != int(mn) or not core.close(unq(md), st.sim_dt, rtol=0, atol=0) or not core.close(unq(ms), st.sim_start, rtol=0, atol=0):
+            bad = f"after {ops}: implementation (start={st.sim_start}, end={st.sim_end!r}, dt={st.sim_dt}, {len(tv)} points) differs from the settings model (end={float(unq(me))!r}, {mn} points)"
+        # direct oracle for the last operation when it requested an end year: first grid point at or after it
+        lastop = ops[-1]
+        if bad is None and lastop[0] in "EU" and (lastop[0] == "E" or lastop[2] is not None):
+            if st.sim_end < last_end_req - 1e-9 or st.sim_end - st.sim_dt >= last_end_req + 1e-9:
+                bad = f"after {ops}: end {st.sim_end!r} is not the first grid point (start {st.sim_start}, dt {st.sim_dt}) at or after the requested end {last_end_req}"
+        if bad:
+            is_oracle = "first grid point" in bad or (st.sim_end - st.sim_dt >= last_end_req + 1e-9 and lastop[0] in "EU" and (lastop[0] == "E" or lastop[2] is not None))
+            if is_oracle:
+                ctx.violation({"api": "ProjectSettings.history", "lastop": lastop[0]}, bad, {"case": key})
+            else:
+                ctx.brk("correspondence", "settings history: " + bad, case=key)
+
+
 def run(ctx):
     run_grid(ctx)
+    run_settings_ops(ctx)
     # conversion half: mode B on generated models (stage "resolve": parameter value -> per-step fraction -> people) + documented-conversion oracle
     engine_corr.run_stream(ctx, PROPERTY, ctx.n(60, 2000), focus=lambda r: {"functions": r.random() < 0.5})
 
